@@ -48,6 +48,8 @@ def run(ctx, R, tier):
     from .c06 import cover as parameter_cover, set_unconditional
     parameter_cover(F, R)
     set_unconditional(F, R, rule='B.C05.set')
+    from .c09 import settings_verbatim
+    settings_verbatim(F, R, rule='B.C05.tween')
     from .c06 import progress_reset
     progress_reset(F, R, rule='B.C05.set')
     from ..enginea import run_singular_only
